@@ -126,7 +126,7 @@ func Preds(seed uint64, n int) *Out {
 	// --- strings
 	for _, neg := range []bool{false, true} {
 		wrap := func(s *z.StringSchema[string]) z.NotStringSchema[string] { return s.Not() }
-		for _, k := range []int{0, 1, 2, 3, 5} {
+		for _, k := range []int{-3, -1, 0, 1, 2, 3, 5} {
 			for _, s := range []string{"", "a", "ab", "abc", "abcd", "abcde", "abcdef", "é", "éa", "日本", "\xff\xfe\xfd"} {
 				if !neg {
 					add("str.min", fmt.Sprintf("(BStrMin %s)", eng.CoqZ(int64(k))), false, dstr(s), passStr(func(x *z.StringSchema[string]) { x.Min(k) }, s))
@@ -466,7 +466,7 @@ func Preds(seed uint64, n int) *Out {
 		}
 	}
 	// --- slices
-	for k := 0; k <= 4; k++ {
+	for k := -2; k <= 4; k++ {
 		for l := 0; l <= 5; l++ {
 			v := make([]string, l)
 			var xs []string
@@ -519,7 +519,8 @@ func Preds(seed uint64, n int) *Out {
 	// random string subjects against random string tests until n cases
 	for len(o.Cases) < n {
 		s := subs[r.Intn(len(subs))] + subs[r.Intn(len(subs))]
-		k := r.Intn(6)
+		k := r.Intn(8) - 2
+		add("str.max", fmt.Sprintf("(BStrMax %s)", eng.CoqZ(int64(k))), false, dstr(s), passStr(func(x *z.StringSchema[string]) { x.Max(k) }, s))
 		add("str.min", fmt.Sprintf("(BStrMin %s)", eng.CoqZ(int64(k))), false, dstr(s), passStr(func(x *z.StringSchema[string]) { x.Min(k) }, s))
 		p := subs[r.Intn(len(subs))]
 		add("str.contains", "(BStrContains "+eng.CoqStr(p)+")", false, dstr(s), passStr(func(x *z.StringSchema[string]) { x.Contains(p) }, s))
